@@ -314,6 +314,42 @@ def check_units(prog, rep):
             lowered = lowered and u_low
             okr = d_ok
     rep.add('U2', gd, entry, 'unit lower-cased before it is looked up and used', gd.node.lineno, lowered, 'units are case-insensitive')
+    # U2-norm: the normalisation between the token and the table lookup maps every documented spelling - in any case, with
+    # the blank that separates it from the number - to its own key.  The statements that rewrite the unit are pure string
+    # code; they are folded (consteval) on the keys of the UNITS table itself: a check of two tables of the program
+    # against each other (what the parser produces / what the table holds), not a run of the parser.
+    un_if = found.get('unit')
+    oku, whyu = None, 'unit lookup not identified'
+    if un_if and un_if[0]:
+        from ..consteval import CannotFold, Folder, fold_expr
+        t_ = un_if[1].test
+        uvar = None
+        for x in ast.walk(t_):
+            if isinstance(x, ast.Name) and x.id not in ('UNITS',):
+                uvar = x.id
+                break
+        pos = body.index(un_if[1]) if un_if[1] in body else None
+        if uvar is not None and pos is not None:
+            def only_unit(n_):
+                return all(x.id in (uvar, 'len', 'str') for x in ast.walk(n_) if isinstance(x, ast.Name))
+            chain = [s_ for s_ in body[:pos] if isinstance(s_, (ast.Assign, ast.AugAssign, ast.If)) and only_unit(s_) and
+                     any(isinstance(x, ast.Name) and x.id == uvar and isinstance(x.ctx, ast.Store) for x in ast.walk(s_))]
+            try:
+                table_ = fold_expr(prog, m, ast.Name(id='UNITS', ctx=ast.Load()))
+                keys = list(table_.keys())
+                bad_ = []
+                for k_ in keys:
+                    for v_ in (k_, k_.upper(), ' ' + k_, k_.title() + ' '):
+                        env_ = {uvar: v_}
+                        Folder(prog, m).block(chain, env_)
+                        if env_[uvar] not in table_ or table_[env_[uvar]] != table_[k_]:
+                            bad_.append((v_, env_[uvar], 'no unit' if env_[uvar] not in table_ else 'another unit'))
+                oku = not bad_
+                whyu = 'spelling %r is looked up as %r: %s' % bad_[0] if bad_ else '%d spellings x 4 forms' % len(keys)
+            except (CannotFold, AttributeError) as ex:
+                oku, whyu = None, 'normalisation not foldable: %s' % ex
+    rep.add('U2', gd, entry, 'normalisation keeps every documented spelling', un_if[1].lineno if un_if else gd.node.lineno, oku,
+            'every key of the unit table, in any case and next to a blank, must reach the lookup as that key; ' + whyu)
     rep.add('U2', gd, entry, 'returns _to_meters(distance, unit)', gd.node.lineno, okr, 'the parsed distance is converted to metres')
     cc = m.funcs.get('calc_cellsize')
     if cc is not None:
